@@ -40,8 +40,13 @@ def run_damaged(job):
                    f"{good} before the damaged frame and one re-connection; loop reports {rep[:1]}")
     n = 1
     k = 0
+    # three cuts only around the damaged frame (four bytes before it to eight after it)
+    ref_frames, _r, _e = framing.split(gen, b"".join(f for f in frames[:good]))
+    lo = sum(len(f) for f in frames[:good])
+    hi = lo + len(frames[good])
+    near = [c for c in range(1, len(raw)) if lo - 4 <= c <= hi + 8]
     for ncut in range(1, maxcuts + 1):
-        for cuts in itertools.combinations(range(1, len(raw)), ncut):
+        for cuts in itertools.combinations(range(1, len(raw)) if ncut < 3 else near, ncut):
             k += 1
             if k % nshards != shard:
                 continue
